@@ -132,6 +132,11 @@ def _tracked_closure(call_fn):
             for x in ast.walk(n.target):
                 if isinstance(x, ast.Name):
                     assigned.setdefault(x.id, [])
+        elif isinstance(n, ast.Expr) and isinstance(n.value, ast.Call) and isinstance(n.value.func, ast.Attribute) \
+                and n.value.func.attr in ("append", "extend", "insert", "update", "setdefault") \
+                and isinstance(n.value.func.value, ast.Name):
+            # x.append(E): E feeds x
+            assigned.setdefault(n.value.func.value.id, []).append(n)
     exclude = {"seq", "memory", "self", "zero", "tw", "actual_len", "gen", "arguments", "den", "inv_gain"}
     changed = True
     while changed:
